@@ -104,6 +104,10 @@ def np_ones_like(a, dtype=None):
 
 
 def np_full_like(a, fill_value, dtype=None):
+    if isinstance(a, (dict, type(None))) and dtype is bool:
+        # np.full_like(<not an array>, 1, dtype=bool) is the 0-d array(True); it broadcasts in `&`
+        # and, used as an index, adds an axis (pandas refuses it)
+        return bool(fill_value)
     if isinstance(a, MArr):
         raise Unsupported("full_like of masked array")
     a = M._as_arr(a, copy=False)
